@@ -22,7 +22,7 @@ def DEC2HEX(dec, places=DEFAULT):
     if isinstance(dec, error.XLError):
         return dec
     if places is not DEFAULT:
-        places = utils.parse_number(places)
+        places = utils.whole(utils.parse_number(places))
         if isinstance(places, error.XLError):
             return places
         if places < 0:
